@@ -20,7 +20,7 @@ func importedStateChecks(e *Env) {
 		return
 	}
 	switch e.Prop {
-	case "C07", "C16", "C17":
+	case "C07", "C16", "C17", "C05":
 	default:
 		return
 	}
@@ -50,6 +50,33 @@ func importedStateChecks(e *Env) {
 		importedC16(e, app, ctx)
 	case "C07":
 		importedC07(e, app, ctx)
+	case "C05":
+		importedC05(e, app, ctx)
+	}
+}
+
+// importedC05: every member's queue of registered nonce pairs survives the restart in the order registered.
+func importedC05(e *Env, app *band.BandApp, ctx sdk.Context) {
+	queue := func(a *band.BandApp, c sdk.Context, addr sdk.AccAddress) []string {
+		q := a.TSSKeeper.GetDEQueue(c, addr)
+		var out []string
+		for i := q.Head; i < q.Tail; i++ {
+			de, err := a.TSSKeeper.GetDE(c, addr, i)
+			if err != nil {
+				out = append(out, "missing")
+				continue
+			}
+			out = append(out, fmt.Sprintf("%X", de.PubD[:6]))
+		}
+		return out
+	}
+	for _, u := range e.W.Users {
+		before := queue(e.App(), e.Ctx(), u.Addr)
+		after := queue(app, ctx, u.Addr)
+		if fmt.Sprint(before) != fmt.Sprint(after) {
+			e.Fail("C05", "nonce_queue_changed_by_export_import", "", "%s: queued nonce pairs (by D) before the restart from exported genesis %v, after %v", u.Name, before, after)
+			return
+		}
 	}
 }
 
